@@ -52,6 +52,10 @@ pub fn gen_program(cx: &mut Case, cfg_mod: impl FnOnce(&mut GenCfg)) -> (Prog, A
         cx.label("program: projections over a byte-oriented layout");
         return gen_layout_program(cx);
     }
+    if cfg.disconnect && cx.src.chance(14) {
+        cx.label("program: disconnect echoing the root it is handed");
+        return gen_disconnect_echo(cx);
+    }
     let wmax = [6usize, 40, 200][cx.src.below(3)];
     let (a, b) = gen_arrow(&mut cx.src, wmax);
     let mut src = cx.src.clone();
@@ -76,6 +80,75 @@ fn konst_ir(v: &RVal, nodes: &mut Vec<Ir>) -> usize {
     };
     nodes.push(ir);
     nodes.len() - 1
+}
+
+/// Directed population aimed at the commitment root that `disconnect` writes for its left child:
+/// `comp E (disconnect (pair (take iden) (drop X)) T)` over a source of 1..7 bits (or a drawn
+/// small type), where E = `comp (pair iden ONES) (take iden)` first fills and releases a frame
+/// of all-one cells, so that the frame in which the root is written starts at a bit offset that
+/// is not a multiple of 8 and re-uses memory that is not zero.  The left child echoes the root
+/// into the output, where it is compared with the from-scratch root of T.
+fn gen_disconnect_echo(cx: &mut Case) -> (Prog, Arc<RTy>, Arc<RTy>) {
+    let s = &mut cx.src;
+    let a = match s.below(9) {
+        0 => RTy::two(),
+        1 => RTy::word(1),
+        2 => RTy::prod(RTy::two(), RTy::word(1)),
+        3 => RTy::word(2),
+        4 => RTy::prod(RTy::two(), RTy::word(2)),
+        5 => RTy::prod(RTy::word(1), RTy::word(2)),
+        6 => RTy::prod(RTy::prod(RTy::two(), RTy::word(1)), RTy::word(2)),
+        7 => RTy::unit(),
+        _ => gen_ty(s, 20, 3),
+    };
+    let mut nodes: Vec<Ir> = vec![];
+    fn push(nodes: &mut Vec<Ir>, ir: Ir) -> usize {
+        nodes.push(ir);
+        nodes.len() - 1
+    }
+    // E : a -> a
+    let n = 6 + s.below(4);
+    let ones = RVal::from_word_bits(&vec![true; 1 << n]);
+    let i0 = push(&mut nodes, Ir::Iden);
+    let k = konst_ir(&ones, &mut nodes);
+    let p = push(&mut nodes, Ir::Pair(i0, k));
+    let i1 = push(&mut nodes, Ir::Iden);
+    let t = push(&mut nodes, Ir::Take(i1));
+    let e = push(&mut nodes, Ir::Comp(p, t));
+    // S : 2^256 * a -> 2^256 * c
+    let i2 = push(&mut nodes, Ir::Iden);
+    let echo = push(&mut nodes, Ir::Take(i2));
+    let x = match s.below(3) {
+        0 => push(&mut nodes, Ir::Iden),
+        1 => push(&mut nodes, Ir::Unit),
+        _ => {
+            let i = push(&mut nodes, Ir::Iden);
+            push(&mut nodes, Ir::InjL(i))
+        }
+    };
+    let dx = push(&mut nodes, Ir::Drop(x));
+    let sn = push(&mut nodes, Ir::Pair(echo, dx));
+    // T : c -> d
+    let tn = match s.below(4) {
+        0 => push(&mut nodes, Ir::Iden),
+        1 => push(&mut nodes, Ir::Unit),
+        2 => {
+            let i = push(&mut nodes, Ir::Iden);
+            let u = push(&mut nodes, Ir::Unit);
+            push(&mut nodes, Ir::Pair(i, u))
+        }
+        _ => {
+            let i = push(&mut nodes, Ir::Iden);
+            push(&mut nodes, Ir::InjR(i))
+        }
+    };
+    let d = push(&mut nodes, Ir::Disconnect(sn, Some(tn)));
+    let body = if s.bool() { push(&mut nodes, Ir::Comp(e, d)) } else { d };
+    // the source type is pinned by a constant in front (an unconstrained source would be unit)
+    let aval = gen_val(s, &a);
+    let ka = konst_ir(&aval, &mut nodes);
+    let root = push(&mut nodes, Ir::Comp(ka, body));
+    (Prog { nodes, root, family: Family::Core }, RTy::unit(), RTy::unit())
 }
 
 /// Directed population aimed at alignment-dependent behaviour of the copy/move/skip paths: a
